@@ -33,6 +33,7 @@ type Obligation struct {
 	Clause  *Clause
 	Extra   []string // extra assumptions of one case of a case split (see splitDischarge)
 	NoQAxioms bool   // leave the quantified spec-function axioms out (a proof without them is still a proof)
+	NoFAxioms bool   // leave the function axioms of pure functions out (likewise)
 }
 
 type InputVar struct {
@@ -70,6 +71,7 @@ type Ctx struct {
 	qN          int
 	axioms      []string
 	qaxioms     []string // quantified definitional axioms of spec functions (can be left out of a query)
+	faxioms     []string // function axioms of pure functions with postconditions (can be left out of a query)
 	prePC       []string
 	preDecls    int
 	exitCount   int
@@ -79,6 +81,7 @@ type Ctx struct {
 	ghSorts     map[string]string // ghost variables with a raw SMT sort (e.g. the big-int heap)
 	usesBig     bool
 	rangeSeen   map[string]bool
+	pureAxDone  map[string]bool // pure functions whose postconditions were added as a function axiom
 }
 
 func newCtx(w *World, specs *Specs, fnName string) *Ctx {
